@@ -2500,14 +2500,16 @@ impl<'de, 'e> de::Deserializer<'de> for YamlDeserializer<'de, 'e> {
                                 )
                             });
                             recorder.current = prev;
-                            return res;
+                            return res.and_then(|v| expect_value_end(&mut replay).map(|()| v));
                         }
                     }
 
                     let de = YamlDeserializer::new(&mut replay, self.cfg);
-                    seed.deserialize(de).map_err(|e| {
+                    let value = seed.deserialize(de).map_err(|e| {
                         attach_alias_locations_if_missing(e, reference_location, defined_location)
-                    })
+                    })?;
+                    expect_value_end(&mut replay)?;
+                    Ok(value)
                 } else {
                     // Live stream: get both locations for potential alias error reporting.
                     let defined_location = self
@@ -3078,5 +3080,15 @@ impl<'de, 'e> de::Deserializer<'de> for YamlDeserializer<'de, 'e> {
     fn deserialize_ignored_any<V: Visitor<'de>>(self, visitor: V) -> Result<V::Value, Self::Error> {
         // Delegate to `any`—callers that truly want to ignore should request `IgnoredAny`.
         self.deserialize_any(visitor)
+    }
+}
+
+/// A value that was recorded (merge entries, values behind captured keys) must be consumed
+/// completely by its target: what the live stream reports as an unexpected event at the next
+/// position - surplus elements of a sequence read into a tuple - would otherwise be dropped.
+fn expect_value_end(replay: &mut ReplayEvents<'_>) -> Result<(), Error> {
+    match replay.peek()? {
+        None => Ok(()),
+        Some(ev) => Err(Error::unexpected("end of the mapping value").with_location(ev.location())),
     }
 }
